@@ -159,6 +159,9 @@ fn title_text() -> BoxedStrategy<String> {
                     Just(w.to_uppercase()),
                     Just(w.replace('\'', "’")),
                     Just(w.to_lowercase().replace('\'', "‘")),
+                    // typed with a full-width input method
+                    Just(w.to_lowercase().chars().map(|c| if c.is_ascii_lowercase() { char::from_u32(c as u32 - 'a' as u32 + 0xFF41).unwrap_or(c) } else { c }).collect::<String>()),
+                    Just(w.chars().map(|c| if c.is_ascii_lowercase() { char::from_u32(c as u32 - 'a' as u32 + 0xFF41).unwrap_or(c) } else if c.is_ascii_uppercase() { char::from_u32(c as u32 - 'A' as u32 + 0xFF21).unwrap_or(c) } else { c }).collect::<String>()),
                     Just(w),
                 ]
             })
@@ -173,7 +176,7 @@ fn title_text() -> BoxedStrategy<String> {
         1 => g::sel_str(&["ﬁsh", "İstanbul", "ıslak", "ǆ", "straße", "éclair", "😀", "o’clock", "rock-and-roll", "state-of-the-art", "3rd", "iPhone", "e.g.", "U.S.", "don’t", "it's"]),
     ];
     prop_oneof![
-        6 => proptest::collection::vec((word, g::sel_str(&[" ", " ", " ", ", ", "-", ": ", " — ", "  ", ".", ". ", "'"])), 1..9)
+        6 => proptest::collection::vec((word, g::sel_str(&[" ", " ", " ", ", ", "-", ": ", " — ", "  ", ".", ". ", "'", "\t", " \t", "\t ", " \t \t"])), 1..9)
             .prop_map(|v| {
                 let n = v.len();
                 v.into_iter().enumerate().map(|(i, (w, s))| if i + 1 < n { w + &s } else { w }).collect::<String>()
@@ -189,6 +192,10 @@ fn title_text() -> BoxedStrategy<String> {
             1 => Just(format!("{t}\r\n")),
             1 => Just(t.replacen(' ', "\n", 1)),
             1 => Just(t.replacen(' ', "\r\n", 1)),
+            // blank runs of several whitespace tokens around the title
+            1 => Just(format!("{t} \t")),
+            1 => Just(format!("{t}\t \t ")),
+            1 => Just(format!(" \t{t}  \t \t")),
         ]
     })
     .boxed()
